@@ -11,6 +11,11 @@ CHECKS = {
         text="For value lists of length 0..4 with every NULL pattern (0..6 in thorough), duplicates and tuples of arity 2-3, in 18 boolean/CASE/comparison/IS contexts, on sqlite/postgresql/mysql, in three delivery modes (literal_binds, bound with expansion, compiled for another list length then re-bound via construct_params(extracted_parameters)), z3 proves the emitted predicate equals OR_i(x = v_i) (resp. its 3VL negation) for every column value incl. NULL, or yields a row; SQLite's empty-set sub-select is executed on sqlite3 for its rows; SQLite disagreements are replayed on sqlite3.",
         note="Trusted: vlib/sqlparse.py grammars, 3VL semantics in vlib/sqlsem.py, z3, sqlite3. PostgreSQL/MySQL: reference grammar only.",
         ref="DESIGN.md §4 C07"),
+    "C14": dict(engine=E1, category="other",
+        technique="solver-chosen foreign-key graphs (CrossHair + z3, exhaustive over the bounded code space) driving the real MetaData.create_all/drop_all/sorted_tables through a mock engine; emitted DDL interpreted by a referenced-table-enforcing backend model; ordering kernel decided symbolically by C19's bounded model checking",
+        text="For every FK graph over 2 tables with {no FK, FK, use_alter FK} per ordered pair incl. self references and every graph over 3 tables with {no FK, FK} (thorough: 3 tables with all three kinds = 19683 graphs, part of 4 tables), the DDL emitted by create_all creates every table and every constraint exactly once without ever referencing a table that does not exist yet, use_alter constraints are emitted as ALTER, drop_all removes everything without dropping a table that is still referenced, and sorted_tables lists referenced tables first for every acyclic dependency.",
+        note="Trusted: DDL interpreter and regexes in props/C14.py (PostgreSQL-like immediate checking), postgresql DDL compiler output format. The code under test runs on concrete graphs chosen by the solver; the symbolic part of the claim is C19.",
+        ref="DESIGN.md §4 C14"),
     "C18": dict(
         engine=E2, category="translation_validation",
         technique="translation validation of the emitted SELECT structure: re-parsed (native clauses, TOP, ROW_NUMBER wrappers, ROWNUM nesting) and given a relational meaning over a bounded symbolic table; z3 decides multiset equality with the requested slice for all table contents and all limit/offset >= 0; sqlite3 replay where the syntax is accepted",
